@@ -1,11 +1,60 @@
 import Oracle.Util
+import Wz.Model.Leb128
 namespace Oracle.C03
-open Oracle
+open Oracle Wz.Model.Leb128
 
-/-- Topic state (stub: no model behind this topic yet). -/
 abbrev St := Unit
 def init : St := ()
 
-def step (st : St) (_args : List String) : St × String := (st, "bad-op")
+def toBytes (ns : List Nat) : List Byte := ns.map (BitVec.ofNat 8)
+
+def showErr : Err → String
+  | .eof => "eof"
+  | .overflow => "overflow"
+
+def showN (r : R Nat) : String :=
+  match r with
+  | .ok (v, n) => s!"ok {v} {n}"
+  | .error e => showErr e
+
+def showI (r : R Int) : String :=
+  match r with
+  | .ok (v, n) => s!"ok {v} {n}"
+  | .error e => showErr e
+
+def lebOne (kind : String) (hex : String) : Option String :=
+  match parseBytes hex with
+  | none => none
+  | some ns =>
+    let bs := toBytes ns
+    match kind with
+    | "u32" => some (showN (decodeUint32 bs))
+    | "u64" => some (showN (loadUint64 bs))
+    | "i32" => some (showI (decodeInt32 bs))
+    | "i64" => some (showI (decodeInt64 bs))
+    | "i33" => some (showI (decodeInt33 bs))
+    | _ => none
+
+def hexOf (bs : List Byte) : String := bytesToHex (bs.map (·.toNat))
+
+def step (st : St) (args : List String) : St × String :=
+  match args with
+  | ["leb", kind, hex] =>
+    match lebOne kind hex with
+    | some s => (st, s)
+    | none => (st, "bad-op")
+  | "lebs" :: kind :: hexes =>
+    match hexes.mapM (lebOne kind) with
+    | some ss => (st, ";".intercalate ss)
+    | none => (st, "bad-op")
+  | ["enc", "u", v] =>
+    match parseNat v with
+    | some v => (st, hexOf (encU v))
+    | none => (st, "bad-op")
+  | ["enc", "s", v] =>
+    match parseInt v with
+    | some v => (st, hexOf (encS v))
+    | none => (st, "bad-op")
+  | _ => (st, "bad-op")
 
 end Oracle.C03
